@@ -63,21 +63,37 @@ theorem segments_layout (S : Nat) (hS : 0 < S) (p : Bytes) :
 /-- `Encrypt` writes exactly what a README-only encoder writes: the three-line header, then the
     sealed segments — for every script of the plaintext source. -/
 theorem encrypt_layout (c : Crypto) (cd : Codec) (P : EncParams) (pwf : P.WF) (o : EncryptOpts)
-    (fk np wfk : Bytes) (r : Reader) (heof : r.term = .eof)
+    (fk np wfk : Bytes) (hwfk : wfk ≠ []) (r : Reader) (heof : r.term = .eof)
     (hhdr : (signHeader c cd P fk (cd.render (mkManifest o wfk np))).length ≤ P.segSize)
     (hcount : (segments P.segSize r.stream).length ≤ P.maxSeg + 1) :
     encryptImpl c cd P o fk np wfk r = (specEncrypt c cd P fk (mkManifest o wfk np) r.stream, .ok) := by
+  have hwe : wfk.isEmpty = false := by simpa using hwfk
   have hfails : r.term.fails = false := by rw [heof]; rfl
   have hconf : confirmed P.segSize r none = segments P.segSize r.stream := by
     simp [confirmed, visible, hfails]
   have hfin : finOf r = .ok := by simp [finOf, hfails]
   have hnot : ¬ (signHeader c cd P fk (cd.render (mkManifest o wfk np))).length > P.segSize := by omega
   unfold encryptImpl
-  simp only [hnot, if_false]
+  simp only [hwe, Bool.false_eq_true, hnot, if_false]
   rw [processSegments_spec P.segSize P.maxSeg _ pwf.seg_pos r, hconf, hfin,
     runSegs_encrypt c P o.cph _ np P.segSize pwf.seg_pos _ 0 (segments_shape _ pwf.seg_pos _) (by omega)]
   rw [specEncrypt_eq, signHeader_eq]
   rfl
+
+/-- `Encrypt` refuses a `WrapKeyFn` result that `Decrypt` would reject (an empty wrapped file key):
+    it never emits a document whose manifest fails `Validate` for that reason. (Before
+    `fix: … empty wrapped file key` it did; finding `empty-wrapped-key-accepted-by-encrypt`.) With it,
+    the only parts of `Manifest.valid` left as preconditions of the round-trip theorems are facts
+    `Encrypt` establishes itself before calling `WrapKeyFn`: validated algorithm and cipher ids and a
+    7-byte nonce prefix. -/
+theorem encrypt_refuses_empty_wrapped_key (c : Crypto) (cd : Codec) (P : EncParams) (o : EncryptOpts)
+    (fk np : Bytes) (r : Reader) :
+    encryptImpl c cd P o fk np [] r = ([], .err .emptyWrappedKey) := by
+  simp [encryptImpl]
+
+/-- T1: both sides of the empty-wrapped-key boundary are in the source. -/
+theorem empty_wrapped_key_checks_as_modelled :
+    Gen.encryptRefusesEmptyWrappedKey = true ∧ Gen.validateRejectsEmptyWrappedKey = true := by decide
 
 /-- The layout of the specification document: header of three newline-terminated lines, then
     `⌈|p|/S⌉` sealed segments, each `overhead` bytes longer than its plaintext; none for `p = []`. -/
@@ -129,20 +145,25 @@ theorem readHeader_spec (P : EncParams) (ml cl rest : Bytes) (wf : HdrWF P.schem
 
 example : HdrWF [100] [123, 125] [65] := ⟨by simp, by simp, by simp, by simp, by simp, by simp⟩
 
-/-- **Round trip / interop.** `Decrypt` opens every document of the specification encoder
-    (`specEncrypt`, written from README.md; by `encrypt_layout` also every document of `Encrypt`)
-    and releases exactly the plaintext with a clean EOF — for every lawful AEAD and codec, every
-    file key, manifest, plaintext, and every script of the document source. -/
-theorem decrypt_encrypt (c : Crypto) (cd : Codec) (P : EncParams) (pwf : P.WF)
-    (fk : Bytes) (hfk : fk.length = P.fkLen)
-    (m : Manifest) (lcd : cd.LawfulFor m) (lc : c.LawfulFor P (payloadKey c P fk m.np) m.np) (hm : m.valid P = true) (p : Bytes) (o : DecryptOpts)
+/-- **Interop with encoders that write the manifest their own way** (README: "each JSON encoder could
+    produce a slightly different output … the MAC should be computed on the exact manifest string"):
+    for ANY manifest line `ml` — any field order, whitespace, escapes — that is non-empty, has no line
+    feed and that the parser reads as a valid manifest `m`, with the MAC computed over `ml` itself,
+    `Decrypt` releases exactly the plaintext with a clean EOF, for every script of the document source.
+    (The code MACs the received bytes, never a re-encoding.) -/
+theorem decrypt_accepts_foreign_manifest (c : Crypto) (cd : Codec) (P : EncParams) (pwf : P.WF)
+    (lb : cd.B64Lawful) (fk : Bytes) (hfk : fk.length = P.fkLen)
+    (m : Manifest) (ml : Bytes) (hparse : cd.parse ml = some m) (hne : ml ≠ []) (hnl : (10 : UInt8) ∉ ml)
+    (lc : c.LawfulFor P (payloadKey c P fk m.np) m.np) (hm : m.valid P = true) (p : Bytes) (o : DecryptOpts)
     (hkn : o.keyName ≠ [] ∨ m.keyName ≠ []) (hunwrap : ∀ kn, o.unwrap m kn = fk)
-    (hhdr : (signHeader c cd P fk (cd.render m)).length ≤ P.hdrMax)
+    (hnf : ∀ kn, o.unwrapFails m kn = false)
+    (hhdr : (signHeader c cd P fk ml).length ≤ P.hdrMax)
     (hcount : (segments P.segSize p).length ≤ P.maxSeg + 1)
-    (r : Reader) (heof : r.term = .eof) (hstream : r.stream = specEncrypt c cd P fk m p) :
+    (r : Reader) (heof : r.term = .eof) (hstream : r.stream = specEncryptLine c cd P fk ml m p) :
     decryptImpl c cd P o r = (p, .ok) := by
-  rw [specEncrypt_eq, ← signHeader_eq] at hstream
-  obtain ⟨r', hrs, hrt, hdec⟩ := decrypt_of_honest_header true c cd P pwf lc.hmac_ne fk hfk m lcd hm o hkn hunwrap _ r heof hhdr hstream
+  obtain ⟨e1, e2⟩ := effKey_good true P o m fk hfk hunwrap hnf
+  obtain ⟨r', hrs, hrt, hdec⟩ := decrypt_of_header_line true true c cd P pwf lc.hmac_ne lb fk m ml hparse hne hnl hm o
+    hkn e1 e2 _ r heof hhdr hstream
   unfold decryptImpl
   rw [hdec]
   have hfails : r'.term.fails = false := by rw [hrt]; rfl
@@ -158,6 +179,23 @@ theorem decrypt_encrypt (c : Crypto) (cd : Codec) (P : EncParams) (pwf : P.WF)
     (segments P.segSize p) 0 (segments_shape _ pwf.seg_pos _) (by omega)
   rw [h1, h2, segments_concat _ pwf.seg_pos]
 
+/-- **Round trip / interop.** `Decrypt` opens every document of the specification encoder
+    (`specEncrypt`, written from README.md; by `encrypt_layout` also every document of `Encrypt`)
+    and releases exactly the plaintext with a clean EOF — for every lawful AEAD and codec, every
+    file key, manifest, plaintext, and every script of the document source. -/
+theorem decrypt_encrypt (c : Crypto) (cd : Codec) (P : EncParams) (pwf : P.WF)
+    (fk : Bytes) (hfk : fk.length = P.fkLen)
+    (m : Manifest) (lcd : cd.LawfulFor m) (lc : c.LawfulFor P (payloadKey c P fk m.np) m.np) (hm : m.valid P = true) (p : Bytes) (o : DecryptOpts)
+    (hkn : o.keyName ≠ [] ∨ m.keyName ≠ []) (hunwrap : ∀ kn, o.unwrap m kn = fk)
+    (hnf : ∀ kn, o.unwrapFails m kn = false)
+    (hhdr : (signHeader c cd P fk (cd.render m)).length ≤ P.hdrMax)
+    (hcount : (segments P.segSize p).length ≤ P.maxSeg + 1)
+    (r : Reader) (heof : r.term = .eof) (hstream : r.stream = specEncrypt c cd P fk m p) :
+    decryptImpl c cd P o r = (p, .ok) := by
+  rw [specEncrypt_eq_line] at hstream
+  exact decrypt_accepts_foreign_manifest c cd P pwf lcd.b64 fk hfk m _ lcd.parse_render lcd.render_line.1
+    lcd.render_line.2 lc hm p o hkn hunwrap hnf hhdr hcount r heof hstream
+
 /-- **Interop, other direction.** A decoder written from README.md alone (`specDecrypt`) opens what
     `Encrypt` writes, for every script of the plaintext source. -/
 theorem spec_decrypts_impl (c : Crypto) (cd : Codec) (P : EncParams) (pwf : P.WF)
@@ -166,7 +204,7 @@ theorem spec_decrypts_impl (c : Crypto) (cd : Codec) (P : EncParams) (pwf : P.WF
     (hhdr : (signHeader c cd P fk (cd.render (mkManifest o wfk np))).length ≤ P.segSize)
     (hcount : (segments P.segSize r.stream).length ≤ P.maxSeg + 1) :
     specDecrypt c cd P fk (encryptImpl c cd P o fk np wfk r).1 = some r.stream := by
-  rw [encrypt_layout c cd P pwf o fk np wfk r heof hhdr hcount]
+  rw [encrypt_layout c cd P pwf o fk np wfk (Codec.valid_parts P _ hm).2.1 r heof hhdr hcount]
   exact specDecrypt_specEncrypt c cd P pwf fk _ lcd lc hm r.stream
 
 /-- `Decrypt ∘ Encrypt = id` on the implementation-shaped functions themselves, including the header
@@ -179,13 +217,14 @@ theorem decrypt_encryptImpl (c : Crypto) (cd : Codec) (P : EncParams) (pwf : P.W
     (hm : (mkManifest eo wfk np).valid P = true) (o : DecryptOpts)
     (hkn : o.keyName ≠ [] ∨ (mkManifest eo wfk np).keyName ≠ [])
     (hunwrap : ∀ kn, o.unwrap (mkManifest eo wfk np) kn = fk)
+    (hnf : ∀ kn, o.unwrapFails (mkManifest eo wfk np) kn = false)
     (src : Reader) (hsrc : src.term = .eof)
     (hhdr : (signHeader c cd P fk (cd.render (mkManifest eo wfk np))).length ≤ P.segSize)
     (hcount : (segments P.segSize src.stream).length ≤ P.maxSeg + 1)
     (r : Reader) (heof : r.term = .eof) (hstream : r.stream = (encryptImpl c cd P eo fk np wfk src).1) :
     decryptImpl c cd P o r = (src.stream, .ok) := by
-  rw [encrypt_layout c cd P pwf eo fk np wfk src hsrc hhdr hcount] at hstream
-  exact decrypt_encrypt c cd P pwf fk hfk _ lcd lc hm src.stream o hkn hunwrap (by omega) hcount r heof hstream
+  rw [encrypt_layout c cd P pwf eo fk np wfk (Codec.valid_parts P _ hm).2.1 src hsrc hhdr hcount] at hstream
+  exact decrypt_encrypt c cd P pwf fk hfk _ lcd lc hm src.stream o hkn hunwrap hnf (by omega) hcount r heof hstream
 
 /-- The parameters regenerated from the Go source satisfy what the theorems assume. -/
 theorem generated_wf : EncParams.generated.WF :=
@@ -230,13 +269,14 @@ example : (Pipe.consumeAll [[1, 2, 3], [4, 5]] .ok [2, 0, 5] 1).1 = [[1, 2], [],
 theorem decrypt_encrypt_real_crypto (cd : Codec)
     (fk : Bytes) (hfk : fk.length = 32) (m : Manifest) (lcd : cd.LawfulFor m) (hm : m.valid EncParams.generated = true) (p : Bytes)
     (o : DecryptOpts) (hkn : o.keyName ≠ [] ∨ m.keyName ≠ []) (hunwrap : ∀ kn, o.unwrap m kn = fk)
+    (hnf : ∀ kn, o.unwrapFails m kn = false)
     (hhdr : (signHeader Real.realCrypto cd EncParams.generated fk (cd.render m)).length ≤ 65536)
     (hcount : (segments 65536 p).length ≤ 2 ^ 32)
     (r : Reader) (heof : r.term = .eof)
     (hstream : r.stream = specEncrypt Real.realCrypto cd EncParams.generated fk m p) :
     decryptImpl Real.realCrypto cd EncParams.generated o r = (p, .ok) :=
   decrypt_encrypt Real.realCrypto cd EncParams.generated generated_wf fk hfk m lcd
-    (Real.realCrypto_lawful fk m.np) hm p o hkn hunwrap hhdr hcount r heof hstream
+    (Real.realCrypto_lawful fk m.np) hm p o hkn hunwrap hnf hhdr hcount r heof hstream
 
 /-- **Round trip for the concrete Lean implementation the driver runs** — Lean AES-GCM /
     ChaCha20-Poly1305 / HKDF / HMAC (`Real.realCrypto`) and the Go-modelled base64/JSON codec
@@ -248,12 +288,13 @@ theorem decrypt_encrypt_real_crypto (cd : Codec)
 theorem decrypt_encrypt_real (fk : Bytes) (hfk : fk.length = 32) (m : Manifest)
     (hm : m.valid EncParams.generated = true) (hk : ∀ b ∈ m.keyName, b.toNat < 128) (p : Bytes)
     (o : DecryptOpts) (hkn : o.keyName ≠ [] ∨ m.keyName ≠ []) (hunwrap : ∀ kn, o.unwrap m kn = fk)
+    (hnf : ∀ kn, o.unwrapFails m kn = false)
     (hhdr : (signHeader Real.realCrypto Real.realCodec EncParams.generated fk (Real.realCodec.render m)).length ≤ 65536)
     (hcount : (segments 65536 p).length ≤ 2 ^ 32)
     (r : Reader) (heof : r.term = .eof)
     (hstream : r.stream = specEncrypt Real.realCrypto Real.realCodec EncParams.generated fk m p) :
     decryptImpl Real.realCrypto Real.realCodec EncParams.generated o r = (p, .ok) :=
-  decrypt_encrypt_real_crypto Real.realCodec fk hfk m (Codec.realCodec_lawful m hm hk) hm p o hkn hunwrap hhdr hcount r
+  decrypt_encrypt_real_crypto Real.realCodec fk hfk m (Codec.realCodec_lawful m hm hk) hm p o hkn hunwrap hnf hhdr hcount r
     heof hstream
 
 /-- The same for `Encrypt`'s own output (`encryptImpl`), for every script on both sides. -/
@@ -262,6 +303,7 @@ theorem decrypt_encryptImpl_real (eo : EncryptOpts) (fk np wfk : Bytes) (hfk : f
     (hk : ∀ b ∈ (mkManifest eo wfk np).keyName, b.toNat < 128) (o : DecryptOpts)
     (hkn : o.keyName ≠ [] ∨ (mkManifest eo wfk np).keyName ≠ [])
     (hunwrap : ∀ kn, o.unwrap (mkManifest eo wfk np) kn = fk)
+    (hnf : ∀ kn, o.unwrapFails (mkManifest eo wfk np) kn = false)
     (src : Reader) (hsrc : src.term = .eof)
     (hhdr : (signHeader Real.realCrypto Real.realCodec EncParams.generated fk
       (Real.realCodec.render (mkManifest eo wfk np))).length ≤ 65536)
@@ -270,7 +312,7 @@ theorem decrypt_encryptImpl_real (eo : EncryptOpts) (fk np wfk : Bytes) (hfk : f
     (hstream : r.stream = (encryptImpl Real.realCrypto Real.realCodec EncParams.generated eo fk np wfk src).1) :
     decryptImpl Real.realCrypto Real.realCodec EncParams.generated o r = (src.stream, .ok) :=
   decrypt_encryptImpl Real.realCrypto Real.realCodec EncParams.generated generated_wf (by decide) eo fk np wfk
-    (Codec.realCodec_lawful _ hm hk) (Real.realCrypto_lawful fk np) hfk hm o hkn hunwrap src hsrc hhdr hcount r heof hstream
+    (Codec.realCodec_lawful _ hm hk) (Real.realCrypto_lawful fk np) hfk hm o hkn hunwrap hnf src hsrc hhdr hcount r heof hstream
 
 /-- The README-only decoder opens what the concrete `Encrypt` writes. -/
 theorem spec_decrypts_impl_real (eo : EncryptOpts) (fk np wfk : Bytes)
